@@ -15,6 +15,7 @@ import (
 	"runtime"
 	"strings"
 	"sync"
+	"sync/atomic"
 	"time"
 
 	"github.com/enbility/ship-go/api"
@@ -38,6 +39,7 @@ type op struct {
 	arm   bool
 	dMs   int   // duration of an arm, ms
 	gapUs int   // pause before the call, us (0 = back to back)
+	par   bool  // this call and the next one are made by two goroutines released together
 	call  int64 // us since scenario start, just before the call
 	ret   int64 // us since scenario start, just after the return
 }
@@ -136,7 +138,9 @@ var gaps = []int{0, 50, 1000, 10000}
 
 func witnessScenario(i int) *scenario {
 	d := durations[i%3]
-	switch (i / 3) % 4 {
+	switch (i / 3) % 5 {
+	case 4: // two goroutines arm the same connection's timer at the same moment (reader, expiring timer and application goroutines all arm it), then it is stopped
+		return &scenario{kind: "witness:arm||arm-stop", ops: []op{{arm: true, dMs: d, par: true}, {arm: true, dMs: d}, {gapUs: 1000}}}
 	case 0: // the refuting schedule of the pinned tree: arm; stop back to back
 		return &scenario{kind: "witness:arm-stop", ops: []op{{arm: true, dMs: d}, {gapUs: 0}}}
 	case 1: // stop directly after Run()'s own arm, then arm and let it fire
@@ -158,6 +162,13 @@ func randomScenario(r *vh.Rng) *scenario {
 			o.dMs = vh.Pick(r, durations)
 		}
 		s.ops = append(s.ops, o)
+	}
+	if k >= 2 && r.Chance(20) {
+		// two goroutines arm the timer together, with the same duration (whichever comes last,
+		// the observable behaviour is that of the sequence arm; arm)
+		d := vh.Pick(r, durations)
+		s.ops[0] = op{arm: true, dMs: d, gapUs: s.ops[0].gapUs, par: true}
+		s.ops[1] = op{arm: true, dMs: d}
 	}
 	if s.ops[k-1].arm {
 		s.kind = "random:last-arm"
@@ -204,22 +215,54 @@ func runScenario(s *scenario, lg *logger) {
 		return
 	}
 	var maxDead int64
-	for i := range s.ops {
-		o := &s.ops[i]
-		pause(o.gapUs)
+	var mdMu sync.Mutex
+	do := func(o *op) {
 		if o.arm {
 			d := time.Duration(o.dMs) * time.Millisecond
 			o.call = s.us()
 			c.VerifArmTimer(d)
 			o.ret = s.us()
+			mdMu.Lock()
 			if dl := o.call + int64(o.dMs)*1000; dl > maxDead {
 				maxDead = dl
 			}
+			mdMu.Unlock()
 		} else {
 			o.call = s.us()
 			c.VerifStopTimer()
 			o.ret = s.us()
 		}
+	}
+	for i := 0; i < len(s.ops); i++ {
+		o := &s.ops[i]
+		pause(o.gapUs)
+		if o.par && i+1 < len(s.ops) {
+			var gate atomic.Bool
+			var ready, wg sync.WaitGroup
+			ready.Add(2)
+			wg.Add(2)
+			for _, x := range []*op{o, &s.ops[i+1]} {
+				go func(x *op) {
+					defer wg.Done()
+					ready.Done()
+					for !gate.Load() {
+					}
+					do(x)
+				}(x)
+			}
+			ready.Wait()
+			gate.Store(true)
+			wg.Wait()
+			// the two calls are listed in the order in which they were made (under load the
+			// goroutines may be scheduled far apart: then this is simply their sequence)
+			if s.ops[i+1].call < s.ops[i].call {
+				s.ops[i].call, s.ops[i+1].call = s.ops[i+1].call, s.ops[i].call
+				s.ops[i].ret, s.ops[i+1].ret = s.ops[i+1].ret, s.ops[i].ret
+			}
+			i++
+			continue
+		}
+		do(o)
 	}
 	// observe until every timer armed by the driver is 100 ms past its deadline ...
 	for s.us() < maxDead+100_000 {
